@@ -148,6 +148,18 @@ PRE_SHAPES: List[List[List[Any]]] = [
 ]
 
 
+def low_type_cases() -> Iterable[Dict[str, Any]]:
+    """message types 0 (EXIT) and 1 (KILL) next to the zero padding of the configured type list: a data set with a
+    list never records EXIT, records KILL exactly when 1 is in its list; a data set selecting everything records both
+    (type index 3 = EXIT, 4 = KILL)"""
+    dss = [{"fmt": "raw", "types": [0], "interval": 0}, {"fmt": "quicklogger", "types": [4, 1], "interval": 0},
+           {"fmt": "json", "types": "A", "interval": 0}]
+    ops = [["u", 1, 3], ["u", 1, 0], ["u", 16, 4], ["u", 1, 3], ["u", 16, 1], ["u", 1, 4]]
+    for s in ["", "RW" * 80, "RRRRRWWW" * 14, "R" * 200]:
+        yield {"ds": dss, "ops": number_ops(ops), "sched": s}
+        yield {"ds": dss[:2], "ops": number_ops(ops[:4]), "sched": s, "pre": [["u", 1, 3, 901], ["u", 1, 4, 902]]}
+
+
 def outside_session_cases() -> Iterable[Dict[str, Any]]:
     """messages, ticks, pause and resume that arrive while no recording is running, then a session"""
     progs = [SMALL_PROGRAMS[0], SMALL_PROGRAMS[2], SMALL_PROGRAMS[3],
@@ -180,7 +192,7 @@ def random_case(rng, long: bool) -> Dict[str, Any]:
     nds = rng.choice([1, 1, 2, 2, 3])
     dss = []
     for _ in range(nds):
-        sel = rng.choice(["A", "A", [0], [1], [0, 2], [1, 2], [0, 1, 2]])
+        sel = rng.choice(["A", "A", [0], [1], [0, 2], [1, 2], [0, 1, 2], [4, 0], [2, 4]])
         dss.append({"fmt": rng.choice(D.FORMATS), "types": sel, "interval": rng.choice([0, 0, 30, 30, 45, 10])})
     nops = rng.randint(20, 50) if long else rng.randint(3, 12)
     ops: List[List[Any]] = []
@@ -188,7 +200,7 @@ def random_case(rng, long: bool) -> Dict[str, Any]:
         k = rng.random()
         dt = rng.choice([0, 0, 1, 1, 2, 5, 8, 16, 16, 31])
         if k < 0.70:
-            ops.append(["u", dt, rng.randrange(3)])
+            ops.append(["u", dt, rng.randrange(3) if rng.random() < 0.9 else rng.choice([3, 4])])
         elif k < 0.85:
             ops.append(["t", dt])
         elif k < 0.93:
@@ -226,7 +238,7 @@ def fine_directed() -> Iterable[Dict[str, Any]]:
     scheds = ["", "R" * 900, "W" * 25, "RW" * 300, "RRW" * 200, "RWW" * 200, "RRRRRWWW" * 80, "RWWWWW" * 120,
               "RRRRRRRRW" * 80, "R" * 9 + "W" * 6 + "R" * 30, "R" * 9 + "W" * 3 + "R" * 12 + "W" * 9 + "R" * 40]
     seen = set()
-    for case in itertools.chain(directed_cases(), outside_session_cases()):
+    for case in itertools.chain(directed_cases(), outside_session_cases(), low_type_cases()):
         key = (str(case["ds"]), str(case["ops"]), str(case.get("pre")))
         if key in seen:
             continue
@@ -329,7 +341,22 @@ def _init_worker(ev) -> None:
     _STOP = ev
 
 
+class WorkerFailed(Exception):
+    """a worker process could not run a chunk; carries plain text (an exception class of the code under test may not
+    survive pickling, and a result the pool cannot unpickle makes `imap` wait for ever)"""
+
+
 def _work(chunk: List[Tuple[str, str, Any]]) -> List[Tuple[str, str, Any, List[str], Dict[str, Any]]]:
+    try:
+        return _work_chunk(chunk)
+    except C.MachineryError as e:
+        raise C.MachineryError(str(e)) from None
+    except BaseException as e:  # noqa: BLE001
+        import traceback
+        raise WorkerFailed(f"{type(e).__name__}: {e}\n{traceback.format_exc()[-1500:]}") from None
+
+
+def _work_chunk(chunk: List[Tuple[str, str, Any]]) -> List[Tuple[str, str, Any, List[str], Dict[str, Any]]]:
     out = []
     for cid, kind, case in chunk:
         if _STOP is not None and _STOP.is_set():
@@ -558,8 +585,25 @@ def _with_pool(fn):
         os.environ.pop("VERIF_DL_DEFS_DIR", None)
 
 
+def _package_imports(res: C.Result) -> bool:
+    """`import pyrtma.data_logger` (it registers the formatters) and the harness's own set-up, in this process.  A tree
+    on which that raises has no data logger to check: reported as a tie that no longer checks (rule 2), not as a crash."""
+    try:
+        D.env()
+        return True
+    except C.MachineryError:
+        raise
+    except Exception as e:  # noqa: BLE001
+        msg = f"harness set-up: the data logger package cannot be imported / set up: {type(e).__name__}: {e}"[:300]
+        if msg not in res.broken:
+            res.broken.append(msg)
+        return False
+
+
 def run(res: C.Result, deep: bool):
     _init_extra(res)
+    if not _package_imports(res):
+        return
 
     # several recordings with one DataCollection object (real threads, real clock; sequential use, no race involved):
     # six items of kind M, run by the workers next to everything else
@@ -570,7 +614,7 @@ def run(res: C.Result, deep: bool):
     for p in sorted((C.CORPUS / PROP).glob("*.case")) if (C.CORPUS / PROP).is_dir() else []:
         import json
         items.append((f"c{n}", "S", json.loads(p.read_text()))); n += 1
-    for case in itertools.chain(directed_cases(), outside_session_cases()):
+    for case in itertools.chain(directed_cases(), outside_session_cases(), low_type_cases()):
         items.append((f"d{n}", "S", case)); n += 1
     ex = list(exhaustive_cases(deep))
     for case in ex:
@@ -597,7 +641,10 @@ def run(res: C.Result, deep: bool):
     res.extra["fine_cases"] = n - n_fine0
     res.rule = ("handshake: every schedule of <= %d alternating runs (run length 1..%d for R, one writer cycle for W, "
                 "both starting threads) over %d small programs [%d cases]; directed boundary programs x 9 schedule "
-                "shapes; %d seeded random short and %d long (20-50 operations, 1-3 data sets, all four formatters, four "
+                "shapes; programs preceded by operations handed to the collection before start() (messages, time-outs, "
+                "pause, resume: 4 shapes x 4 programs x 3 schedules, and a quarter of the random cases); data sets "
+                "configured with the zero-padded type list of the data logger, messages of the core types 0 / 1; "
+                "%d seeded random short and %d long (20-50 operations, 1-3 data sets, all four formatters, four "
                 "scheduler flavours) runs; each schedule is completed by a round-robin tail.  formats: every partition "
                 "of every type sequence of length <= %d into <= 3 write() batches + finalize batch for raw/json/"
                 "quicklogger, plus seeded long partitions.  A handshake case is non-trivial when the writer wrote at "
@@ -614,12 +661,16 @@ def run(res: C.Result, deep: bool):
     res.extra["gate_labels_never_seen"] = [l for l in ALL_LABELS if l not in seen]
     res.assumptions = ["every access to an object both threads can reach is a scheduling point; code between two such "
                        "accesses touches thread-local data only (audited per run, see TRUSTED)",
-                       "one recording session per collection: start(); operations; stop()"]
+                       "one recording session per collection in the models: start(); operations; stop() — what precedes "
+                       "start() and what happens between several recordings of one collection (six multi-session runs "
+                       "with real threads) is judged on the implementation only"]
 
 
 def search(res: C.Result):
     """rule 2: model and code disagree but no failing input yet: explore schedules around the diverging cases"""
     _init_extra(res)
+    if not _package_imports(res):
+        return
     # VERIF_SEARCH_SCALE (default 1): a mutation sweep that runs this search hundreds of times may shrink it; a verdict
     # "no failing input found" obtained with a scale below 1 is to be confirmed with the full search
     scale = float(os.environ.get("VERIF_SEARCH_SCALE") or 1.0)
